@@ -42,6 +42,18 @@ class C19(Prop):
             c.untyped = 0.2
         f = lang.gen_formula(rng, c)
         n = rng.randint(2, 20)
+        if rng.random() < 0.03:
+            # windows of 33..130 samples on traces of 90..180 samples (tiny value alphabet: the extreme value repeats
+            # inside one window), period 1
+            c.wide, c.max_depth = 0.8, rng.choice([1, 2])
+            for _ in range(30):
+                f = lang.gen_formula(rng, c)
+                if any(g[1] is not None and 32 <= g[1][1] - g[1][0] <= 130 for g in lang.walk(f)) and lang.horizon(f) <= 140:
+                    break
+            names = lang.variables(f) or [c.vars[0]]
+            n = rng.randint(90, 180) + lang.horizon(f)
+            return {'formula': f, 'data': dict((k, lang.gen_values(rng, n, rng.choice(['tiny', 'small']))) for k in names),
+                    'period': '1', 'again': False}
         names = lang.variables(f) or [c.vars[0]]
         case = {'formula': f, 'data': lang.gen_trace(rng, names, n), 'period': rng.choice(sorted(PERIODS))}
         if rng.random() < 0.12:
